@@ -37,7 +37,7 @@ const TOO_BIG: i64 = -32007;
 const RESP_TOO_BIG: i64 = -32008;
 const LIMITS: [u32; 5] = [64, 100, 1000, 4096, 65536];
 const DUPLEX: usize = 1 << 20;
-const TCP_ROUNDS: u64 = 8;
+const TCP_ROUNDS: u64 = 30;
 
 // ---------------------------------------------------------------------------------------------------------------
 // Probe description (everything needed to rebuild the exact bytes; stored in witnesses).
@@ -1139,7 +1139,16 @@ fn replay(ctx: &Ctx, path: &std::path::Path, mut ev: Evidence) -> ! {
 			let mut ev = Evidence::new("");
 			let mut out = TcpOut::default();
 			match TcpEnv::new(p.req, p.resp).await {
-				Ok(mut env) => tcp_probe_with_retry(&mut env, &p, &m, &mut ev, &mut out).await,
+				Ok(mut env) => {
+					tcp_probe_with_retry(&mut env, &p, &m, &mut ev, &mut out).await;
+					// a second, different probe (other side of the limit) so that the evidence floor of two
+					// distinct cases does not mask a clean replay
+					let mut p2 = p.clone();
+					p2.size = if p.size > p.req as usize { p.req as usize } else { p.req as usize + 1 };
+					if let Some(m2) = build_msg(p2.shape, p2.size, p2.msg_seed) {
+						tcp_probe_with_retry(&mut env, &p2, &m2, &mut ev, &mut out).await;
+					}
+				}
 				Err(e) => out.inconclusive.push(e),
 			}
 			(ev, out)
